@@ -596,6 +596,30 @@ def corpus_item(item):
             check(t, rule.__name__)
             if fingerprint(t, ids=True, sql=False) != before:
                 st["nontrivial"] += 1
+        # helpers of the optimizer that are public on their own, and qualify without its final quoting pass (which rewrites every
+        # identifier through set() and so repairs what an earlier step may have left stale): each on its own hashed copy
+        from sqlglot.optimizer.normalize_identifiers import normalize_identifiers as _ni
+        from sqlglot.optimizer.qualify import qualify as _q
+        from sqlglot.optimizer.qualify_tables import qualify_tables as _qt
+
+        extra = [
+            ("normalize_identifiers", lambda c: _ni(c, dialect=read or None)),
+            ("qualify-unquoted", lambda c: _q(c, schema=schema, dialect=read or None, quote_identifiers=False, validate_qualify_columns=False)),
+            ("qualify-unquoted-noexpand", lambda c: _q(c, schema=schema, dialect=read or None, quote_identifiers=False, expand_stars=False, validate_qualify_columns=False)),
+            ("qualify_tables-db", lambda c: _qt(c, db="DbX", catalog="CatX", dialect=read or None)),
+        ]
+        for name, fn in extra:
+            c = tree.copy()
+            for n, *_ in nodes(c):
+                n._hash = None
+            try:
+                hash(c)
+                c = fn(c)
+            except Exception as e:
+                skip(f"{name}:{type(e).__name__}")
+                continue
+            if isinstance(c, Expr):
+                check(c, name)
     seen = {}
     for x in st["viol"]:
         seen.setdefault(x["key"], x)
